@@ -64,6 +64,7 @@ func GenSet(tier string) []GenSpec {
 		testserver("singlefilewl", "singlefile", wl),
 		fed("entityresolver"),
 		fed("explicitrequires"),
+		fed("computedrequires"),
 		probe("customroots"),
 	}
 	if tier == "thorough" {
@@ -73,7 +74,6 @@ func GenSet(tier string) []GenSpec {
 			testserver("singlefilenulldir", "singlefile", map[string]string{"call_argument_directives_with_null": "true"}),
 			testserver("singlefileomittable", "singlefile", map[string]string{"nullable_input_omittable": "true"}),
 			testserver("singlefileptrinput", "singlefile", map[string]string{"return_pointers_in_unmarshalinput": "true"}),
-			fed("computedrequires"),
 			fed("usefunctionsyntaxforexecutioncontext"),
 			GenSpec{GenConfig: pipeline.GenConfig{Name: "nullabledirectives", Dir: "codegen/testserver/nullabledirectives", Config: "gqlgen.yml", Stub: "stub.go", Schema: []string{"*.graphql"}},
 				ExecPkg: "codegen/testserver/nullabledirectives/generated"},
